@@ -115,6 +115,7 @@ def cases(tier, seed):
                 "vect": bool(E > 1 or rng.random() < 0.5),
                 "mem": "per" if rng.random() < 0.25 else "uniform",
                 "seed": int(rng.integers(1 << 30)),
+                "extra_flags": [None, None, None, ["terminated"], ["termination", "terminated"]][int(rng.integers(5))],
             }
         )
     # second workload: the real train_off_policy fills and samples both buffers (vf/props/c10_loops.py)
@@ -376,7 +377,7 @@ def _ids_of(td, key):
     return a[:, 0].tolist()
 
 
-def _run_stream(rec, dones, E, n, gamma, cap, vect, memkind, seed, ctx, check_every_step=True):
+def _run_stream(rec, dones, E, n, gamma, cap, vect, memkind, seed, ctx, check_every_step=True, extra_flags=None):
     import torch
     from agilerl.components.data import Transition
     from agilerl.components.replay_buffer import MultiStepReplayBuffer, PrioritizedReplayBuffer, ReplayBuffer
@@ -419,6 +420,16 @@ def _run_stream(rec, dones, E, n, gamma, cap, vect, memkind, seed, ctx, check_ev
             transition = transition.unsqueeze(0)
         transition = transition.to_tensordict()
         transition.batch_size = [num_envs]
+        if extra_flags:
+            # gymnasium-style transitions that carry further episode-end fields next to `done`: the documented key
+            # order is done, termination, terminated, so `done` (here: terminated OR truncated) still ends the window
+            import torch
+
+            sub = torch.as_tensor(np.asarray(done, dtype=bool) & np.asarray([(t + e) % 2 == 0 for e in range(num_envs)])).reshape(
+                transition["done"].shape).to(transition["done"].dtype)
+            for key in extra_flags:
+                transition[key] = sub.clone()
+            rec.hit("transitions_with_extra_episode_end_fields")
         if n_step_memory is not None:
             one_step_transition = n_step_memory.add(transition)
             if one_step_transition is not None:
@@ -526,7 +537,8 @@ def run_case(case):
             dones = _stream_random(case)
             ctx = {"n": n, "gamma": gamma, "cap": cap, "envs": E, "stream_len": len(dones)}
             rec.hit("streams")
-            saw = _run_stream(rec, dones, E, n, gamma, cap, case["vect"], case["mem"], case["seed"], ctx)
+            saw = _run_stream(rec, dones, E, n, gamma, cap, case["vect"], case["mem"], case["seed"], ctx,
+                              extra_flags=case.get("extra_flags"))
     except CaseTimeout:
         raise
     except Exception as e:  # a legal stream made the buffers raise
